@@ -7,13 +7,20 @@
 // When no scheduler is installed (cur == nil) every shim falls through to the real
 // primitive: that is "passthrough" mode, used by harnesses that need real goroutines
 // (http.Server, TLS over net.Pipe).
+//
+// Race-oracle hygiene (engine E2): in -race builds the scheduler must neither report
+// races of its own nor add happens-before edges between threads. Therefore every
+// function here is //go:norace, there are no closures (they cannot carry the pragma),
+// no Go maps (the runtime instruments map accesses by caller PC regardless of the
+// pragma) and no fmt/sync.Pool use on the paths that run while threads are live; the
+// hand-off channels are used inside runtime.RaceDisable sections.
 package vsched
 
 import (
-	"fmt"
 	"runtime"
 	"runtime/debug"
 	"sort"
+	"strconv"
 	"strings"
 	"sync"
 	"time"
@@ -38,19 +45,26 @@ const (
 	KGate
 	KSpawn
 	KQuiesce
+	KJoin
 	KChoose
-	KBlockForever
 )
 
-var kindNames = [...]string{"start", "lock", "lockwait", "rlock", "trylock", "wgwait", "once", "send", "recv", "close", "select", "atomic", "yield", "gate", "spawn", "quiesce", "choose", "blockforever"}
+var kindNames = [...]string{"start", "lock", "lockwait", "rlock", "trylock", "wgwait", "once", "send", "recv", "close", "select", "atomic", "yield", "gate", "spawn", "quiesce", "join", "choose"}
 
 func (k Kind) String() string { return kindNames[k] }
 
+// Enabler decides whether a published operation could run now without blocking.
+// Implementations must be //go:norace methods (they read shim state written by other
+// threads).
+type Enabler interface {
+	Enabled(kind Kind) bool
+}
+
 type op struct {
-	kind    Kind
-	label   string
-	obj     uintptr
-	enabled func() bool // nil: always enabled
+	kind  Kind
+	label string
+	obj   uintptr
+	en    Enabler // nil: always enabled
 }
 
 type thread struct {
@@ -60,7 +74,6 @@ type thread struct {
 	wake     chan struct{}
 	pend     *op
 	finished bool
-	started  bool
 }
 
 // PointRec is one recorded branching decision.
@@ -78,13 +91,12 @@ type PointRec struct {
 type Exec struct {
 	Points   []PointRec
 	Steps    int
-	Status   string // "complete", "deadlock", "horizon", "panic", "leak"
+	Status   string // "complete", "deadlock", "horizon", "panic", "leak", "nondeterminism"
 	Detail   string
 	Blocked  []string // threads still blocked at the end (daemons parked; on deadlock: everybody)
 	Trace    []string // full step trace (only if Config.Trace)
 	PanicVal string
 	Stack    string
-	TimedOut bool
 }
 
 func (x *Exec) Choices() []int {
@@ -109,18 +121,18 @@ type Config struct {
 }
 
 type Sched struct {
-	cfg     Config
-	threads []*thread
-	running *thread
-	exec    *Exec
-	pos     int // index of the next branching decision
-	killed  bool
-	over    bool
-	doneCh  chan struct{}
-	wg      sync.WaitGroup
-	objIDs  map[uintptr]int
-	Nondet  string
-	chClosed map[uintptr]bool
+	cfg      Config
+	threads  []*thread
+	running  *thread
+	exec     *Exec
+	pos      int // index of the next branching decision
+	killed   bool
+	over     bool
+	doneCh   chan struct{}
+	wg       sync.WaitGroup
+	objs     []uintptr // object numbering in publication order
+	Nondet   string
+	chClosed []uintptr
 	cum      uint64
 }
 
@@ -158,15 +170,16 @@ func installed() *Sched {
 
 // Run executes body as thread 0 under a fresh scheduler following cfg.Prefix and
 // then the default choice (0) everywhere.
+//
+//go:norace
 func Run(cfg Config, body func()) *Exec {
 	if cfg.Horizon <= 0 {
 		cfg.Horizon = 20000
 	}
-	s := &Sched{cfg: cfg, exec: &Exec{}, doneCh: make(chan struct{}, 1), objIDs: map[uintptr]int{}, chClosed: map[uintptr]bool{}}
+	s := &Sched{cfg: cfg, exec: &Exec{}, doneCh: make(chan struct{}, 1)}
 	cur = s
 	t0 := s.newThread("main", false, body)
 	s.running = t0
-	t0.started = true
 	handoff(t0)
 	<-s.doneCh
 	// teardown: release every parked goroutine; they leave through Goexit.
@@ -179,7 +192,7 @@ func Run(cfg Config, body func()) *Exec {
 	}
 	raceEnable()
 	waitCh := make(chan struct{})
-	go func() { s.wg.Wait(); close(waitCh) }()
+	go waitAll(s, waitCh)
 	select {
 	case <-waitCh:
 	case <-time.After(20 * time.Second):
@@ -193,6 +206,9 @@ func Run(cfg Config, body func()) *Exec {
 	}
 	return s.exec
 }
+
+//go:norace
+func waitAll(s *Sched, ch chan struct{}) { s.wg.Wait(); close(ch) }
 
 //go:norace
 func handoff(t *thread) {
@@ -211,19 +227,10 @@ func (s *Sched) newThread(name string, daemon bool, fn func()) *thread {
 	return t
 }
 
+//go:norace
 func (s *Sched) threadMain(t *thread, fn func()) {
 	defer s.wg.Done()
-	defer func() {
-		if r := recover(); r != nil {
-			if s.killed {
-				return
-			}
-			s.exec.PanicVal = fmt.Sprint(r)
-			s.exec.Stack = string(debug.Stack())
-			s.finish("panic", fmt.Sprintf("thread %d(%s) panicked: %v", t.id, t.name, r))
-			return
-		}
-	}()
+	defer s.recoverThread(t)
 	raceDisable()
 	_, ok := <-t.wake
 	raceEnable()
@@ -236,7 +243,33 @@ func (s *Sched) threadMain(t *thread, fn func()) {
 		return
 	}
 	t.finished = true
+	raceReleaseMergeJoin()
 	s.schedule(t)
+}
+
+//go:norace
+func (s *Sched) recoverThread(t *thread) {
+	if r := recover(); r != nil {
+		if s.killed {
+			return
+		}
+		s.exec.PanicVal = sprint(r)
+		s.exec.Stack = string(debug.Stack())
+		s.finish("panic", "thread "+strconv.Itoa(t.id)+"("+t.name+") panicked: "+s.exec.PanicVal)
+	}
+}
+
+//go:norace
+func sprint(r any) string {
+	switch v := r.(type) {
+	case string:
+		return v
+	case error:
+		return v.Error()
+	case interface{ String() string }:
+		return v.String()
+	}
+	return "panic value of type " + typeName(r)
 }
 
 // finish ends the execution with the given status; the caller's goroutine must
@@ -252,7 +285,7 @@ func (s *Sched) finish(status, detail string) {
 	s.exec.Detail = detail
 	for _, t := range s.threads {
 		if !t.finished && t.pend != nil {
-			s.exec.Blocked = append(s.exec.Blocked, fmt.Sprintf("%d(%s)@%s:%s", t.id, t.name, t.pend.kind, t.pend.label))
+			s.exec.Blocked = append(s.exec.Blocked, strconv.Itoa(t.id)+"("+t.name+")@"+t.pend.kind.String()+":"+t.pend.label)
 		}
 	}
 	s.doneCh <- struct{}{}
@@ -263,13 +296,17 @@ func (s *Sched) objID(p uintptr) int {
 	if p == 0 {
 		return 0
 	}
-	id, ok := s.objIDs[p]
-	if !ok {
-		id = len(s.objIDs) + 1
-		s.objIDs[p] = id
+	for i, q := range s.objs {
+		if q == p {
+			return i + 1
+		}
 	}
-	return id
+	s.objs = append(s.objs, p)
+	return len(s.objs)
 }
+
+//go:norace
+func (o *op) enabledNow() bool { return o.en == nil || o.en.Enabled(o.kind) }
 
 // point publishes the operation the running thread is about to perform and returns
 // once the scheduler lets this thread perform it.
@@ -293,7 +330,7 @@ func (s *Sched) schedule(t *thread) {
 	}
 	s.exec.Steps++
 	if s.exec.Steps > s.cfg.Horizon {
-		s.finish("horizon", fmt.Sprintf("more than %d steps", s.cfg.Horizon))
+		s.finish("horizon", "more than "+strconv.Itoa(s.cfg.Horizon)+" steps")
 		s.park(t)
 		return
 	}
@@ -302,7 +339,7 @@ func (s *Sched) schedule(t *thread) {
 	}
 	var enabled []*thread
 	runEn := false
-	if !t.finished && t.pend != nil && (t.pend.enabled == nil || t.pend.enabled()) {
+	if !t.finished && t.pend != nil && t.pend.enabledNow() {
 		enabled = append(enabled, t)
 		runEn = true
 	}
@@ -310,7 +347,7 @@ func (s *Sched) schedule(t *thread) {
 		if u == t || u.finished || u.pend == nil {
 			continue
 		}
-		if u.pend.enabled == nil || u.pend.enabled() {
+		if u.pend.enabledNow() {
 			enabled = append(enabled, u)
 		}
 	}
@@ -331,16 +368,18 @@ func (s *Sched) schedule(t *thread) {
 	}
 	choice := 0
 	if len(enabled) > 1 {
-		choice = s.decide(len(enabled), runEn, false, false, func() string {
-			var b strings.Builder
-			for i, u := range enabled {
-				if i > 0 {
-					b.WriteByte(' ')
-				}
-				fmt.Fprintf(&b, "%d:%s#%d", u.id, u.pend.kind, s.objID(u.pend.obj))
+		var b strings.Builder
+		for i, u := range enabled {
+			if i > 0 {
+				b.WriteByte(' ')
 			}
-			return b.String()
-		}, t.id)
+			b.WriteString(strconv.Itoa(u.id))
+			b.WriteByte(':')
+			b.WriteString(u.pend.kind.String())
+			b.WriteByte('#')
+			b.WriteString(strconv.Itoa(s.objID(u.pend.obj)))
+		}
+		choice = s.decide(len(enabled), runEn, false, false, b.String(), t.id)
 		if s.over {
 			s.park(t)
 			return
@@ -348,13 +387,12 @@ func (s *Sched) schedule(t *thread) {
 	}
 	next := enabled[choice]
 	if s.cfg.Trace {
-		s.exec.Trace = append(s.exec.Trace, fmt.Sprintf("T%d(%s) %s %s#%d", next.id, next.name, next.pend.kind, next.pend.label, s.objID(next.pend.obj)))
+		s.exec.Trace = append(s.exec.Trace, "T"+strconv.Itoa(next.id)+"("+next.name+") "+next.pend.kind.String()+" "+next.pend.label+"#"+strconv.Itoa(s.objID(next.pend.obj)))
 	}
 	if next == t {
 		return
 	}
 	s.running = next
-	next.started = true
 	handoff(next)
 	s.park(t)
 }
@@ -362,21 +400,20 @@ func (s *Sched) schedule(t *thread) {
 // decide records one branching decision and returns the alternative to take.
 //
 //go:norace
-func (s *Sched) decide(n int, runEn, env, free bool, label func() string, running int) int {
+func (s *Sched) decide(n int, runEn, env, free bool, lab string, running int) int {
 	i := s.pos
 	s.pos++
 	choice := 0
-	lab := label()
 	if i < len(s.cfg.Prefix) {
 		choice = s.cfg.Prefix[i]
 		if choice < 0 || choice >= n {
-			s.Nondet = fmt.Sprintf("replayed choice %d out of range (n=%d) at decision %d (%s)", choice, n, i, lab)
+			s.Nondet = "replayed choice " + strconv.Itoa(choice) + " out of range (n=" + strconv.Itoa(n) + ") at decision " + strconv.Itoa(i) + " (" + lab + ")"
 			s.finish("nondeterminism", s.Nondet)
 			return 0
 		}
 		s.cum = labelHash(s.cum, lab)
 		if i == len(s.cfg.Prefix)-1 && s.cfg.ExpectHash != 0 && s.cum != s.cfg.ExpectHash {
-			s.Nondet = fmt.Sprintf("replay diverged within the first %d decisions (label hash mismatch; last label now %q)", i+1, lab)
+			s.Nondet = "replay diverged within the first " + strconv.Itoa(i+1) + " decisions (label hash mismatch; last label now \"" + lab + "\")"
 			s.finish("nondeterminism", s.Nondet)
 			return 0
 		}
@@ -405,12 +442,12 @@ func (s *Sched) park(t *thread) {
 // Point is a generic scheduling point with an enabledness predicate.
 //
 //go:norace
-func Point(kind Kind, obj uintptr, label string, enabled func() bool) {
+func Point(kind Kind, obj uintptr, label string, en Enabler) {
 	s := installed()
 	if s == nil {
 		return
 	}
-	s.point(&op{kind: kind, label: label, obj: obj, enabled: enabled})
+	s.point(&op{kind: kind, label: label, obj: obj, en: en})
 }
 
 // Yield is a harness-level scheduling point.
@@ -458,7 +495,7 @@ func spawn(name string, daemon bool, fn func()) {
 		if i := strings.LastIndex(file, "/"); i >= 0 {
 			file = file[i+1:]
 		}
-		name = fmt.Sprintf("%s:%d", file, line)
+		name = file + ":" + strconv.Itoa(line)
 	}
 	s.newThread(name, daemon, fn)
 	s.point(&op{kind: KSpawn, label: name})
@@ -472,7 +509,7 @@ func Choose(label string, n int) int {
 	if s == nil || n <= 1 {
 		return 0
 	}
-	return s.decide(n, false, true, false, func() string { return "env:" + label }, s.running.id)
+	return s.decide(n, false, true, false, "env:"+label, s.running.id)
 }
 
 // ChooseFree is like Choose but its alternatives do not count as deviations.
@@ -483,7 +520,34 @@ func ChooseFree(label string, n int) int {
 	if s == nil || n <= 1 {
 		return 0
 	}
-	return s.decide(n, false, true, true, func() string { return "env:" + label }, s.running.id)
+	return s.decide(n, false, true, true, "env:"+label, s.running.id)
+}
+
+type quiesceEn struct {
+	s  *Sched
+	me *thread
+}
+
+// Enabled: KQuiesce is enabled when no other thread is enabled; KJoin when every
+// other harness thread has finished.
+//
+//go:norace
+func (q quiesceEn) Enabled(kind Kind) bool {
+	for _, u := range q.s.threads {
+		if u == q.me || u.finished {
+			continue
+		}
+		if kind == KJoin {
+			if !u.daemon {
+				return false
+			}
+			continue
+		}
+		if u.pend != nil && u.pend.enabledNow() {
+			return false
+		}
+	}
+	return true
 }
 
 // Quiesce blocks the calling harness thread until no other thread is enabled, i.e.
@@ -495,18 +559,7 @@ func Quiesce() {
 	if s == nil {
 		return
 	}
-	me := s.running
-	s.point(&op{kind: KQuiesce, label: "quiesce", enabled: func() bool {
-		for _, u := range s.threads {
-			if u == me || u.finished || u.pend == nil {
-				continue
-			}
-			if u.pend.enabled == nil || u.pend.enabled() {
-				return false
-			}
-		}
-		return true
-	}})
+	s.point(&op{kind: KQuiesce, label: "quiesce", en: quiesceEn{s, s.running}})
 }
 
 // JoinHarness blocks until every other harness (non-daemon) thread has finished.
@@ -517,15 +570,8 @@ func JoinHarness() {
 	if s == nil {
 		return
 	}
-	me := s.running
-	s.point(&op{kind: KQuiesce, label: "join", enabled: func() bool {
-		for _, u := range s.threads {
-			if u != me && !u.daemon && !u.finished {
-				return false
-			}
-		}
-		return true
-	}})
+	s.point(&op{kind: KJoin, label: "join", en: quiesceEn{s, s.running}})
+	raceAcquireJoin() // a real join orders everything the joined threads did before what follows
 }
 
 // BlockedDaemons lists daemon threads that are parked (blocked) right now.
@@ -539,7 +585,7 @@ func BlockedDaemons() []string {
 	var out []string
 	for _, u := range s.threads {
 		if u.daemon && !u.finished && u.pend != nil && u != s.running {
-			out = append(out, fmt.Sprintf("%s@%s:%s", u.name, u.pend.kind, u.pend.label))
+			out = append(out, u.name+"@"+u.pend.kind.String()+":"+u.pend.label)
 		}
 	}
 	sort.Strings(out)
